@@ -1,7 +1,7 @@
 """C15 — strings: Strings.tla defines every documented string operation on code points, UTF-8 bytes and grapheme clusters; TLC
 enumerates all strings over mixed-width alphabets up to a length bound with all arguments in and just beyond bounds, checks the
 property's laws on the definitions, and prints one prediction per case.  The cases are run on the real runtime (batched scripts;
-each string built as a literal, from escapes, as a slice of a larger buffer, and as a slice of a buffer beyond 64 KiB) and the
+each string built as a literal, from escapes, by concatenation at run time, as a slice of a larger buffer, and as a slice of a buffer beyond 64 KiB) and the
 results compared byte for byte; every string that comes back is checked to be valid UTF-8."""
 import json, os, random
 import common
@@ -70,6 +70,8 @@ def text_of(cps, prov):
         return esc(cps)
     if prov == "sub":                       # a slice of a larger buffer (2 + n + 3 bytes)
         return "('é' + %s + '日')[2..%d]" % (lit(cps), 2 + n)
+    if prov == "built":                     # a string built at run time (its own buffer, not a slice)
+        return "('' + %s)" % lit(cps)
     if prov == "big":                       # a slice whose bounds do not fit 16 bits
         return "(BIG + %s)[70000..]" % lit(cps)
     raise ValueError(prov)
@@ -241,7 +243,7 @@ def run(tier, seed):
         if c["op"] in ("literal", "format_int"):
             provs = ["lit"]
         else:
-            provs = ["lit", rng.choice(["esc", "sub", "sub", "big"] if not quick else ["esc", "sub", "big"])]
+            provs = ["lit", rng.choice(["esc", "sub", "built", "big"])]
             if quick and rng.random() < 0.5:
                 provs = provs[1:] if rng.random() < 0.5 else provs[:1]
         for p in provs:
